@@ -637,14 +637,15 @@ type c07Scn struct {
 	rng  *rand.Rand
 	name string
 	log  []string
-	// acctOnly: the scenarios are replayed for C03, which judges the accounting invariant only
-	acctOnly bool
+	// only: the scenarios are replayed for C03 ("acct": judges the accounting invariant only) or for C04 ("dir": judges
+	// directory == index only); "" = C07 judges everything
+	only string
 }
 
 func (s *c07Scn) viol(suffix, what string, detail any) {
-	if s.acctOnly {
-		if strings.HasPrefix(suffix, "acct:") {
-			s.r.Violation("C03:forced-schedule:"+s.name+":"+suffix, what, detail)
+	if s.only != "" {
+		if strings.HasPrefix(suffix, s.only+":") {
+			s.r.Violation(map[string]string{"acct": "C03", "dir": "C04"}[s.only]+":forced-schedule:"+s.name+":"+suffix, what, detail)
 		}
 		return
 	}
@@ -1198,7 +1199,7 @@ func runC07(r *lib.Run) {
 	}
 	t0 := time.Now()
 	// targeted scenarios
-	runGateScenarios(r, hc, pool, rng, nScn, false)
+	runGateScenarios(r, hc, pool, rng, nScn, "")
 	r.CountN("time_ms.scenarios", time.Since(t0).Milliseconds())
 	t1 := time.Now()
 	runC07Histories(r, hc, pool, rng, nHist, child)
@@ -1215,8 +1216,8 @@ func runC07(r *lib.Run) {
 }
 
 // runGateScenarios drives the targeted schedule-forcing scenarios n times (alternating storage modes).
-func runGateScenarios(r *lib.Run, hc *lib.HookCtl, pool *lib.DirPool, rng *rand.Rand, nScn int, acctOnly bool) {
-	scn := &c07Scn{r: r, hc: hc, pool: pool, rng: rng, acctOnly: acctOnly}
+func runGateScenarios(r *lib.Run, hc *lib.HookCtl, pool *lib.DirPool, rng *rand.Rand, nScn int, only string) {
+	scn := &c07Scn{r: r, hc: hc, pool: pool, rng: rng, only: only}
 	for i := 0; i < nScn; i++ {
 		st := []string{"zstd", "uncompressed"}[i%2]
 		for _, f := range []func(){
